@@ -149,6 +149,22 @@ def gen_history(rng, profile=None, max_ops=40):
             ops[-1][3]['prio'] = 50
             ops.append(['Schedule'])
             continue
+        if srv and apps and rng.random() < p['renew'] * 0.5:
+            # a renewal that cannot be honoured: every server is about to reboot; the instance may also have been moved
+            # to another allocation since it was placed (its old server then refuses the restore)
+            n = rng.choice(apps)
+            ops.append(['Schedule'])
+            if rng.random() < 0.5:
+                label, path = rng.choice(st['allocs'])
+                ops.append(['AddApp', label, path, {'name': n, 'prio': 1, 'demand': [1, 1, 1], 'aff': affs[0],
+                                                    'limits': [], 'traits': 0, 'lease': 0, 'drt': None, 'group': None,
+                                                    'once': False, 'order': 0}])
+            for sv in srv:
+                if rng.random() < 0.85:
+                    ops.append(['SetValidUntil', sv, now[0] + rng.choice([0, 1, 2])])
+            ops.append(['SetRenew', n])
+            ops.append(['Schedule'])
+            continue
         if r < 0.22:
             ops.append(['Schedule'])
         elif r < 0.36:
@@ -201,7 +217,9 @@ def gen_history(rng, profile=None, max_ops=40):
             ops.append(['UpdateAlloc', label, path, res, rng.choice([100, 100, 50, 120]), rng.choice([0, 10, 20]),
                         maxu, (rng.choice(trait_bits) if rng.random() < p['traits'] * 0.5 else 0)])
         elif r < 0.94 and apps and rng.random() < p['renew'] * 5:
+            # the flag is only meaningful for the next cycle (the scheduler asserts that a flagged instance is placed)
             ops.append(['SetRenew', rng.choice(apps)])
+            ops.append(['Schedule'])
         elif r < 0.96 and apps:
             ops.append(['SetUnschedule', rng.choice(apps)])
         elif r < 0.98 and srv:
